@@ -22,9 +22,11 @@ import (
 	"math/rand"
 	"net"
 	"net/http"
+	"net/http/httptest"
 	"os"
 	"os/exec"
 	"path/filepath"
+	"sync"
 	"syscall"
 	"time"
 
@@ -96,6 +98,31 @@ func scenarioBinary(t *traceWriter, rng *rand.Rand) {
 		defs = append(defs, ls.l)
 		yaml += fmt.Sprintf("  - Origin: %s\n    URL: http://127.0.0.1:1/\n    PublicKey: %s\n    Feeder: none\n", ls.l.origin, keyA.vkey)
 	}
+	// a third log that nobody pushes: the binary has to poll it (--poll_interval) from a real HTTP server, and
+	// a distributor it has to push to (--rest_distro_url)
+	trT := newExplicitBranch("bin-polled", 600, nil, 0)
+	stT := &stubTiles{br: trT, origin: "bin.example/polled", signer: keyA.signer, size: 5}
+	polledID := f_log.ID(stT.origin)
+	tsrv := httptest.NewServer(http.HandlerFunc(func(rw http.ResponseWriter, r *http.Request) {
+		resp, _ := stT.RoundTrip(r)
+		b, _ := io.ReadAll(resp.Body)
+		rw.WriteHeader(resp.StatusCode)
+		_, _ = rw.Write(b)
+	}))
+	defer tsrv.Close()
+	var dmu sync.Mutex
+	dputs := map[string][]byte{}
+	dsrv := httptest.NewServer(http.HandlerFunc(func(rw http.ResponseWriter, r *http.Request) {
+		b, _ := io.ReadAll(r.Body)
+		if r.Method == http.MethodPut {
+			dmu.Lock()
+			dputs[r.URL.Path] = b
+			dmu.Unlock()
+		}
+		rw.WriteHeader(200)
+	}))
+	defer dsrv.Close()
+	yaml += fmt.Sprintf("  - Origin: %s\n    URL: %s/\n    PublicKey: %s\n    Feeder: tiles\n", stT.origin, tsrv.URL, keyA.vkey)
 	cfgFile := filepath.Join(scratch, "logs.yaml")
 	_ = os.WriteFile(cfgFile, []byte(yaml), 0o600)
 	dbFile := filepath.Join(scratch, "witness.db")
@@ -103,7 +130,7 @@ func scenarioBinary(t *traceWriter, rng *rand.Rand) {
 	start := func() *binProc {
 		p := &binProc{out: &bytes.Buffer{}}
 		p.cmd = exec.Command(bin, "--listen", api, "--metrics_listen", freePort(), "--db_file", dbFile, "--private_key", wkL.skey,
-			"--bastion_addr", ln.Addr().String(), "--bastion_key_path", bkeyFile, "--bastion_rate_limit", "100000", "--poll_interval", "0s", "--logtostderr")
+			"--bastion_addr", ln.Addr().String(), "--bastion_key_path", bkeyFile, "--bastion_rate_limit", "100000", "--poll_interval", "50ms", "--rest_distro_url", dsrv.URL, "--logtostderr")
 		p.cmd.Env = append(os.Environ(), "VERIF_CONFIG_LOGS="+cfgFile, "SSL_CERT_FILE="+caFile, "SSL_CERT_DIR="+emptyDir)
 		p.cmd.Stdout, p.cmd.Stderr = p.out, p.out
 		if err := p.cmd.Start(); err != nil {
@@ -119,6 +146,24 @@ func scenarioBinary(t *traceWriter, rng *rand.Rand) {
 		defer resp.Body.Close()
 		b, _ := io.ReadAll(resp.Body)
 		return resp.StatusCode, b
+	}
+	// polled: the binary's served checkpoint of the polled log reaches the published size within the deadline
+	polled := func(phase string, size uint64) {
+		stT.mu.Lock()
+		stT.size = size
+		stT.mu.Unlock()
+		served, valid := uint64(0), 0
+		for dl := time.Now().Add(10 * time.Second); time.Now().Before(dl); time.Sleep(50 * time.Millisecond) {
+			if st, b := get("/witness/v0/logs/" + polledID + "/checkpoint"); st == 200 {
+				if cp, _, n, err := f_log.ParseCheckpoint(b, stT.origin, keyA.verif, wkL.verif, wkC.verif); err == nil {
+					served, valid = cp.Size, b2i(len(n.Sigs) == 3 && bytes.Equal(cp.Hash, trT.root(cp.Size)))
+					if served == size {
+						break
+					}
+				}
+			}
+		}
+		t.line("BINP phase=%s want=%d served=%d valid=%d", phase, size, served, valid)
 	}
 	waitAPI := func() bool {
 		for i := 0; i < 150; i++ {
@@ -183,6 +228,8 @@ func scenarioBinary(t *traceWriter, rng *rand.Rand) {
 		return
 	}
 	t.line("BIN phase=start ok=1 msg=.")
+	polled("first", 5)
+	polled("growth", 300)
 	s := newExternalSession(t, "sqlfile", defs, wk, func(id string) string {
 		st, b := get("/witness/v0/logs/" + id + "/checkpoint")
 		switch st {
@@ -248,6 +295,26 @@ func scenarioBinary(t *traceWriter, rng *rand.Rand) {
 		}
 	}
 	t.line("BIN phase=restart ok=%d msg=%s logs=%d", same, hx([]byte("a checkpoint acknowledged before the kill is not served after the restart")), len(held))
+	polled("after-restart", 300)
+	polled("growth-after-restart", 513)
+	// the restarted binary distributes at start-up: the polled log's checkpoint arrives at the distributor, unmodified,
+	// under the log's ID and the witness's key name
+	{
+		want := "/distributor/v0/logs/" + polledID + "/byWitness/" + wkC.verif.Name() + "/checkpoint"
+		okD := 0
+		for dl := time.Now().Add(5 * time.Second); time.Now().Before(dl) && okD == 0; time.Sleep(100 * time.Millisecond) {
+			dmu.Lock()
+			if b, ok := dputs[want]; ok {
+				if _, _, _, err := f_log.ParseCheckpoint(b, stT.origin, keyA.verif, wkL.verif, wkC.verif); err == nil {
+					okD = 1
+				}
+			}
+			dmu.Unlock()
+		}
+		dmu.Lock()
+		t.line("BIND pushed=%d puts=%d", okD, len(dputs))
+		dmu.Unlock()
+	}
 	// and the restarted process still refuses a fork of what it acknowledged
 	cc2, conn2, emsg := accept()
 	if cc2 == nil {
